@@ -2,5 +2,5 @@
 From Coq Require Import ZArith List.
 From Texel Require Export Prelude.Base Prelude.Corr Index.Model Snap.Model Corr.SnapCase.
 Definition case := snapcase.
-Definition check (c : case) : bool := check_proj proj_edges eq_edges c && check_proj proj_points eq_points c.
+Definition check (c : case) : bool := check_proj proj_nesting eq_nesting c && check_proj proj_points eq_points c.
 Definition mismatches (l : list case) : list N := mismatches_from check 0 l.
